@@ -222,9 +222,21 @@ func cfaultCase(cs cfCase) *CaseSpec {
 		rmu.Lock()
 		qret := returned
 		rmu.Unlock()
-		// was the fault reached at all? (a late index may lie beyond the exchange)
+		// was the fault reached at all? (a late index may lie beyond the exchange). The sender
+		// goroutine works through the queue on its own: wait until it has either hit the fault or
+		// put every message of the exchange on the stream before judging
 		reached := true
 		if cs.side == "send" {
+			const total = 2 + scripted + burst
+			for dl := time.Now().Add(wd(2 * time.Second)); time.Now().Before(dl); {
+				st.mu.Lock()
+				n := len(st.sent)
+				st.mu.Unlock()
+				if st.sendFailed.Load() || n >= total {
+					break
+				}
+				time.Sleep(200 * time.Microsecond)
+			}
 			reached = st.sendFailed.Load()
 		}
 		// the error is recorded
